@@ -358,7 +358,8 @@ class Inference(ABC):
                 if p.is_alive():
                     p.terminate()
                     p.join()  # Ensure the process has terminated
-                    mp_return_dict[processes.index((p, i, query))] = (
+                    # record the timeout under the query's own key (not its position)
+                    mp_return_dict[i] = (
                         i,
                         False,
                         True,
